@@ -86,6 +86,7 @@ type histRun struct {
 	s         stk.Stack
 	nested    map[int]any
 	plog      []int
+	lastRej   string // the error the push policy returned during the current Push, if any
 	invariant string
 }
 
@@ -225,6 +226,7 @@ func (h *histRun) policy(p int) stk.PushPolicy {
 			bit = c % 16
 		}
 		if p&(1<<bit) != 0 {
+			h.lastRej = fmt.Sprintf("rejected %d", c)
 			return fmt.Errorf("rejected %d", c)
 		}
 		return nil
@@ -253,7 +255,14 @@ func (h *histRun) exec(o HOp) (outT string, rec any) {
 		copy(buf, vs)
 		buf[len(vs)], buf[len(vs)+1] = "guard-1", "guard-2"
 		keep := append([]any{}, buf...)
+		h.lastRej = ""
 		s.Push(buf[:len(vs)]...)
+		// a rejection is reported through Err(): the error of THIS batch, whatever was stored before
+		if h.lastRej != "" && h.invariant == "" {
+			if e := s.Err(); e == nil || e.Error() != h.lastRej {
+				h.invariant = fmt.Sprintf("the push policy returned %q for this batch, Err() shows %v", h.lastRej, e)
+			}
+		}
 		for i := range buf {
 			if !sameValue(buf[i], keep[i]) {
 				h.invariant = fmt.Sprintf("Push rewrote the caller's argument slice at position %d of %d", i, len(vs))
